@@ -111,6 +111,90 @@ func c07Case(c *Ctx, id string, content []prule, ops []mOp, refCheck bool) {
 	}
 }
 
+// named policy types with their own priority column (at another position than p's, or with a p
+// that has none): the column must be resolved per policy type
+var c07Named = []machConf{
+	{Name: "prio-named-a", Text: `[request_definition]
+r = sub, obj, act
+[policy_definition]
+p = sub, obj, act, eft
+p2 = sub, priority, obj, eft
+[role_definition]
+g = _, _
+[policy_effect]
+e = priority(p.eft) || deny
+[matchers]
+m = g(r.sub, p.sub) && r.obj == p.obj && r.act == p.act
+`, Defs: []machDef{{"g", true, 2, -1}, {"p", false, 4, -1}, {"p2", false, 4, 1}}},
+	{Name: "prio-named-b", Text: `[request_definition]
+r = sub, obj, act
+[policy_definition]
+p = priority, sub, obj, eft
+p2 = sub, obj, priority, eft
+[role_definition]
+g = _, _
+[policy_effect]
+e = priority(p.eft) || deny
+[matchers]
+m = g(r.sub, p.sub) && r.obj == p.obj
+`, Defs: []machDef{{"g", true, 2, -1}, {"p", false, 4, 0}, {"p2", false, 4, 2}}},
+}
+
+// c07NamedCase: additions to p and p2 in the given order (rules carry their priority in the
+// column of their own type), then a save/load round trip; listed order of both types compared
+// with the model at every step.
+func c07NamedCase(c *Ctx, id string, conf machConf, ops []mOp) {
+	c.Case(id, fmt.Sprintf("(cfg %s) (flags 0 0 none) (content) (obs res (pol p) (pol p2)) (ops %s)",
+		strings.TrimSuffix(strings.TrimPrefix(conf.Sx(), "("), ")"),
+		strings.TrimSuffix(strings.TrimPrefix(opsSx(ops), "("), ")")))
+	m := newMach(conf, false, false, "none", nil)
+	for k, o := range ops {
+		res := m.apply(o)
+		c.Obs(id, fmt.Sprintf("%d.res", k), res)
+		for _, pt := range []string{"p", "p2"} {
+			pol, _ := m.E.GetNamedPolicy(pt)
+			c.Obs(id, fmt.Sprintf("%d.pol.%s", k, pt), rulesKey(pol))
+			// the property's own predicate: numeric priorities of a type are listed in ascending order
+			if d := conf.Def(pt); d.Prio >= 0 {
+				last, have := 0, false
+				for _, r := range pol {
+					v, err := strconv.Atoi(r[d.Prio])
+					if err != nil {
+						have = false
+						break
+					}
+					if have && v < last {
+						c.Direct(id, "rules of "+pt+" are not listed in ascending priority order", fmt.Sprintf("%s listed=%s", opsSx(ops[:k+1]), rulesKey(pol)))
+						break
+					}
+					last, have = v, true
+				}
+			}
+		}
+		c.Count(o.Kind)
+	}
+}
+
+func c07NamedRule(d *machDef, prio string, i int) []string {
+	r := []string{"s" + strconv.Itoa(i), "o" + strconv.Itoa(i%2), "allow", "allow"}
+	if d.Prio >= 0 {
+		// fill the columns around the priority column
+		out := make([]string, 0, 4)
+		vals := []string{"s" + strconv.Itoa(i), "o" + strconv.Itoa(i%2)}
+		vi := 0
+		for col := 0; col < 3; col++ {
+			if col == d.Prio {
+				out = append(out, prio)
+			} else {
+				out = append(out, vals[vi])
+				vi++
+			}
+		}
+		return append(out, []string{"allow", "deny"}[i%2])
+	}
+	return r[:3+1]
+}
+
 func c07Perms(n, k int, f func([]int)) {
 	used := make([]bool, n)
 	cur := make([]int, 0, k)
@@ -180,6 +264,26 @@ func init() {
 					c07Case(c, id+".rf", nil, append(append([]mOp(nil), ops...), mOp{Kind: "removefiltered", Pt: "p", Fi: 1, Fvs: []string{"alice"}}), false)
 					c07Case(c, id+".save-load", nil, append(append([]mOp(nil), ops...), mOp{Kind: "save"}, mOp{Kind: "load"}), false)
 				}
+			})
+		}
+		// (a') named policy types with their own priority column
+		prios := []string{"3", "1", "2", "1", "-4", "10"}
+		for ci, conf := range c07Named {
+			np := 0
+			c07Perms(len(prios), 3, func(p []int) {
+				np++
+				if !c.Thorough() && np%4 != ci {
+					return
+				}
+				var ops []mOp
+				for j, i := range p {
+					ops = append(ops, mOp{Kind: "add", Pt: "p2", R1: [][]string{c07NamedRule(conf.Def("p2"), prios[i], i)}})
+					ops = append(ops, mOp{Kind: "add", Pt: "p", R1: [][]string{c07NamedRule(conf.Def("p"), prios[p[(j+1)%3]], i)}})
+				}
+				ops = append(ops, mOp{Kind: "remove", Pt: "p2", R1: ops[0].R1}, mOp{Kind: "add", Pt: "p2", R1: ops[0].R1}, mOp{Kind: "save"}, mOp{Kind: "load"})
+				id := fmt.Sprintf("c07.named.%s.%d", conf.Name, np)
+				c07NamedCase(c, id, conf, ops)
+				c.NonTrivial(id)
 			})
 		}
 		// (b) loads of shuffled contents
